@@ -120,6 +120,13 @@ CHECKS["C07"] = ("E3-puppet",
   "size, checksum type, closure flag and the reference checksum. NAK shapes: plain, duplicated, overlapping, empty, inverted, straddling / beyond EOF, longer than a segment, during the first pass or after EOF.",
   "Zero-length file-data PDUs are tallied, not judged. Requests arriving less than ~60 ms before the puppet's Finished are not required to be answered. Sampled (tens of thousands of scripts), not exhaustive.",
   "DESIGN.md §5 C07")
+CHECKS["C20"] = ("E2-sim",
+  "proptest scenarios provoking every progress report (keep-alive prompts, suspend/resume, blackouts -> faults/abandon) on the real daemons; oracle = delivered-distinct-bytes / emitted-offset model with a window rule",
+  "Acknowledged-mode scenarios from the general generator (files of >= 3 segments, duplicates, drops, retransmissions) with Prompt(keep-alive) at any datagram ordinal, optional suspend/resume at either side and "
+  "optional blackouts that lead to limit faults and abandon. Every figure in a KeepAlive PDU, Fault, Abandon or Resumed indication must equal the number of distinct bytes delivered to the receiver "
+  "(resp. the highest offset+length the sender had put out) at some point of a small window around its emission, never exceed the file size and never decrease.",
+  "Window: events up to 2 ms earlier are surely counted, what may be in the 2-PDU transport pipeline (2 tau + 2 ms) may be. Sampled.",
+  "DESIGN.md §5 C20")
 NOT_YET = {}
 
 def main():
